@@ -519,12 +519,21 @@ func cmdC19ReplayChild(args []string) {
 	}
 	installSessionGates()
 	steps := 0
+	fails := 0
 	for i := a; i < b; i++ {
 		sc := scheds[i]
 		out.Case(i, map[string]interface{}{"schedule": sc.String()})
 		steps += len(sc.Steps)
 		if f := replaySchedule(w, sc); f != nil {
 			out.Fail(f.class, f.detail, map[string]interface{}{"schedule": sc.String(), "expected_open": sc.Open})
+			fails++
+			if fails >= maxFailsPerChild {
+				out.Extra("stopped_after_failures", float64(fails))
+				out.Eval(i + 1 - a)
+				out.End()
+				w.close()
+				return
+			}
 		} else if i%2003 == 0 {
 			out.Sample(map[string]interface{}{"schedule": sc.String(), "open": sc.Open})
 		}
